@@ -108,7 +108,8 @@ def handle (j : J) : Except String J := do
     let cfg : Cfg := {
       codec := wireCodec
       policy := ← toPolicy (cfgJ.getD "policy")
-      ownerFix := ← toOwnerFix (cfgJ.getD "ownerFix")
+      shouldOwn := (match cfgJ.get? "shouldOwn" with | some (.bool b) => b | _ => false)
+      ownerRef := ← toJVal (cfgJ.getD "ownerRef")
       createEnabled := (match cfgJ.get? "createEnabled" with | some (.bool b) => b | _ => true)
       createDelay := ← toJVal (cfgJ.getD "createDelay")
       createView := ← toJVal (cfgJ.getD "createView") }
